@@ -10,9 +10,9 @@ CONSTANTS
   InitMs = 3
   InitRems = {0, 500000}
   NTerms = 3
-  ChainPeriods = {1, 2, 3, 4}
+  ChainPeriods = {2, 3}
   ChainTermInts = {6}
-  Starts = {1, 2, 3}
+  Starts = {1, 2}
   NodeAts = {"genesis", "tip"}
   KeepHist = FALSE
   KF_TdposPreInit = FALSE
